@@ -22,7 +22,7 @@ ALL = [f"C{n:02d}" for n in range(1, 21)]
 
 
 def run_property(prop: str, repo: str, tier: str, seed: int, *, write_evidence: bool = True,
-                 quiet: bool = False, evidence_dir=None, replay_dir=None) -> int:
+                 quiet: bool = False, evidence_dir=None, replay_dir=None, program=None) -> int:
     started = time.time()
     try:
         try:
@@ -30,7 +30,7 @@ def run_property(prop: str, repo: str, tier: str, seed: int, *, write_evidence: 
         except ModuleNotFoundError:
             print(f"ANALYSIS-ERROR property={prop} no rule module")
             return 2
-        program = Program(repo)
+        program = program if program is not None else Program(repo)
         if len(program.modules) < 37:
             raise AnalysisError(f"only {len(program.modules)} modules parsed under {program.src}, expected >= 37")
         ctx = Context(program, prop, tier)
